@@ -29,6 +29,7 @@ CONSTANTS
   MaxCompacts = 0
   DelFaults = {}
   CompactDetail = FALSE
+  RecordDetail = FALSE
   LateCompact = FALSE
   EagerSeq = FALSE
   FixedOps <- MCNoFixedOps
